@@ -13,6 +13,18 @@ def register(pid):
         return f
     return deco
 
+_GUARDED = None
+def _guard(item):
+    """a worker must never die: a BaseException that escapes (e.g. a Rust panic surfacing as
+    pyo3 PanicException) would kill the pool process and hang imap forever"""
+    try:
+        return _GUARDED(item)
+    except KeyboardInterrupt:
+        raise
+    except BaseException:
+        import traceback
+        return {"case": item if isinstance(item, dict) else {"item": repr(item)[:500]}, "error": "worker died: " + traceback.format_exc()[-3000:]}
+
 def pmap(fn, items, procs=NPROC, max_timeouts=3):
     """parallel map; if several cases hit the watchdog the remaining ones are not run (the
     violation is already established and each further stall costs CASE_TIMEOUT seconds)"""
@@ -20,8 +32,10 @@ def pmap(fn, items, procs=NPROC, max_timeouts=3):
         return []
     out = [None] * len(items)
     timeouts = 0
+    global _GUARDED
+    _GUARDED = fn
     with mp.get_context("fork").Pool(procs) as pool:
-        it = pool.imap(fn, items, chunksize=max(1, min(8, len(items) // (procs * 8))))
+        it = pool.imap(_guard, items, chunksize=max(1, min(8, len(items) // (procs * 8))))
         for i, r in enumerate(it):
             out[i] = r
             if isinstance(r, dict) and r.get("timeout"):
@@ -233,8 +247,15 @@ def _case_worker_inner(case):
                 mr, md = r, d
             else:
                 mr, md = line.split(" ", 1)
-                mr = H.sort_ids(mr[len("result="):])
+                mr = mr[len("result="):]
+                tape_verdict = None
+                if ";tape=" in mr:                      # contract of the recorded tape, decided by the model
+                    mr, tv = mr.split(";tape=")
+                    tape_verdict = tuple(int(x) for x in tv.split("/"))
+                mr = H.sort_ids(mr)
             steps.append({"real_result": r, "model_result": mr, "real": d, "model": md, "meta": meta})
+            if idx and not nomodel and tape_verdict is not None:
+                steps[-1]["tape_verdict"] = tape_verdict
         return {"case": case, "steps": steps, "ref_full": ref_out[1].split(" ", 1)[1], "mintraps": parse_spaces(ref_out[2]),
                 "root": ref_out[3], "attractors": parse_attractors(ref_out[4]), "verdicts": verdicts, "global_verdict": global_verdict, "pipe_results": pipe_results if case.get("pipe") else [], "sym_results": sym_results, "sym_calls": len(sym_index), "n": n, "error": None}
     except CaseTimeout:
